@@ -13,7 +13,8 @@ PROPS = {
         "level_note": "Model = coq/Staking.v (hand-written); tied to helpers.rs/execute.rs by differential runs: 6000 boundary-biased 128-bit triples through the real compute_* functions and ~240 generated chain histories through the real entry points (quick). History-level monotonicity is proved per transition, not yet as one induction.",
     },
     "C15": {
-        "claimed": False,
+        "level_text": "Theorems for all stores and inputs: get_rates is (floor(N*10^18/L), floor(L*10^18/N)) and (0,0) when L = 0; every successful LiquidStake, SubmitBatch, ReceiveRewards and ResumeContract emits exactly the oracle posts expected for the store it returns (one MsgExecuteContract to the configured oracle with the LST denom and the post-transaction rates; none when no oracle is configured); the State query reports the same purchase rate; without an oracle the posting step cannot fail.",
+        "level_note": "The converse half of 'oracle optional' (success with an oracle implies success without) is not one theorem yet (C15_oracle_optional_partial in the file); it is covered by the correspondence: 30% of generated histories run without an oracle and the monitor flags any panic there. Rates are compared as the exact JSON bytes of the emitted message.",
         "title": "Oracle rates are post-transaction rates; oracle optional",
         "streams": ["world"],
         "facets": {"res", "msg:oracle", "q", "st.state"},
@@ -21,7 +22,8 @@ PROPS = {
         "variants": ("default",),
     },
     "C03": {
-        "claimed": False,
+        "level_text": "Contract-level theorems for all stores, rates, recipients and flags: a successful LiquidStake emits one mint of m to the contract and exactly one delivery of exactly m LST (bank send to a protocol-chain recipient, IBC transfer to a native-chain one; classification theorem), grows the LST total by m; SubmitBatch burns exactly the batch total from the contract and lowers the total by it. The supply / contract-balance equations over whole histories are proved over the World model (Properties/C03w.v) once that file exists.",
+        "level_note": "Both cargo feature builds are run (world and world_mini streams); message bytes are compared exactly. History-level equations currently rest on the simulator monitors only.",
         "title": "LST supply integrity and exact delivery",
         "streams": ["world", "world_mini"],
         "facets": {"res", "msg:mint", "msg:burn", "msg:send", "msg:transfer", "st.state", "st.batch", "st.pkt", "st.wait"},
@@ -30,7 +32,7 @@ PROPS = {
     },
     "C08": {
         "title": "Authorization matrix of the staking contract",
-        "streams": ["matrix", "world"],
+        "streams": ["matrix", "world", "own"],
         "facets": {"res"} | ST_ALL,
         "nontrivial": ("addval", "rmval", "updcfg", "xfer_own", "revoke_own", "resume", "feewd", "breaker", "accept_own", "rewards", "unstaked", "recover", "withdraw"),
         "variants": ("default",),
@@ -45,5 +47,23 @@ PROPS = {
         "variants": ("default",),
         "level_text": "Theorems for all stores and inputs: instantiate yields a halted store; while halted each of the six value-moving messages returns a typed error (not Ok, not a panic); CircuitBreaker succeeds only for admin/monitor and yields exactly the old store with the flag set and no messages; ResumeContract succeeds only for the admin and yields exactly the old store with the three totals replaced and the flag cleared, emitting only the oracle post.",
         "level_note": "Tied to the code by the matrix stream: every value-moving call that succeeds on a running state is replayed behind a CircuitBreaker in the same rolled-back transaction (so a lost check_stopped cannot hide behind another error); resume arguments both equal to and different from the current totals.",
+    },
+    "C11": {
+        "title": "Protocol fee accounting on rewards",
+        "streams": ["world", "matrix"],
+        "facets": {"res", "msg:bank", "msg:send", "msg:transfer", "st.state"},
+        "nontrivial": ("rewards", "feewd"),
+        "variants": ("default",),
+        "level_text": "Theorems for all stores, amounts and rates: a successful ReceiveRewards has fee = floor(rate*reward/100000) (denominator pinned to the source by the translator) <= reward, restakes reward - fee, fee + restaked = reward, grows the reward counter by the full reward, sends the fee to the treasury in the same response when one is configured and otherwise accrues it; it is refused while no LST exists and whenever the fee would exceed the reward (rates above 100000); FeeWithdraw succeeds only for the admin, with a treasury, for at most the accrued amount, sends exactly that to the current treasury and lowers the balance by it.",
+        "level_note": "Tied to execute.rs by the world and matrix streams (fee rates 0, 1, 1000, 10000, 33333, 99999, 100000, 100001; treasury toggled between events). The history-level identity total_fees = accrued + swept - withdrawn is part of the World invariant (C02).",
+    },
+    "C12": {
+        "title": "Two-step, seven-day time-locked admin handover (both contracts)",
+        "streams": ["own", "world"],
+        "facets": {"res", "st.admin", "st.state", "ts.owner"},
+        "nontrivial": ("xfer_own", "accept_own", "revoke_own", "texec"),
+        "variants": ("default",),
+        "level_text": "An abstract hand-over machine (admin, nominee, earliest acceptance time) is proved correct over every history of nominate/revoke/accept/other events by any principals at any times: the admin changes only by an Accept of the account of the most recent un-cancelled nomination, at least 604800 s after it; acceptance consumes the nomination. Both contract models are proved to refine the machine step for step (all 16 staking messages and reply/sudo; all 7 treasury messages), the delay constants are regenerated from both execute.rs files and pinned to 604800, and the former admin is proved to lose every admin-only message.",
+        "level_note": "Tied to the two Rust copies by the ownership stream on both contracts (block times at nomination + 604799 / 604800 / 604801 s, admin-only probe by every principal after each step) and by the world stream for the staking contract.",
     },
 }
